@@ -226,6 +226,17 @@ def streamBlocks (cap n : Nat) : List Nat := List.replicate (n / cap) cap ++ [n 
 remains, then the rest if there is any — nothing at all for an empty file -/
 def preadBlocks (cap n : Nat) : List Nat := if n = 0 then [] else readSingleBlocks cap n n
 
+/-- `ErsatzPWrite(fd, data, size, off)` for `off` inside or at the end of the file -/
+def pwriteAt (file : Buf) (off : Nat) (bytes : Buf) : Buf :=
+  file.take off ++ bytes ++ file.drop (off + bytes.length)
+
+/-- `PWrite::Run` (io.cc:68-76): write every block's valid bytes at the running offset, then trim
+the file to that offset -/
+def pwriteRun (file : Buf) (blocks : List Block) : Buf :=
+  let r := blocks.foldl (fun (st : Buf × Nat) b =>
+    (pwriteAt st.1 st.2 (b.mem.take b.valid), st.2 + (b.mem.take b.valid).length)) (file, 0)
+  r.1.take r.2
+
 /-- blocks the consumer of `Sort::Output` sees: none for empty input (poison only), `ReadSingle`
 for a single run, the merging stream otherwise -/
 def outputBlocks (cap nruns nout : Nat) : List Nat :=
